@@ -1,0 +1,17 @@
+//go:build verif
+
+package emulate
+
+import (
+	"mltwist/internal/consoleui"
+	"mltwist/internal/consoleui/internal/lines"
+	"mltwist/internal/consoleui/internal/view"
+	"mltwist/internal/state"
+)
+
+// VerifSuicNewRegView exposes the unexported register view to the verification
+// harness (cmd/verifharness, build tag verif).
+func VerifSuicNewRegView(stat *state.State) view.View { return newRegView(stat) }
+
+// VerifSuicLineView returns the listing view of an emulation mode created by New.
+func VerifSuicLineView(m consoleui.Mode) *lines.View { return m.(*mode).lineView }
